@@ -1,5 +1,5 @@
 (* C13 — Cancellation is prompt and each message is handed to exactly one receiver. *)
-From P2PV Require Import Lib.Base Model.Hub Proofs.HubP.
+From P2PV Require Import Lib.Base Model.Hub Proofs.HubP Model.Queue Proofs.QueueP Run.RunQueue Proofs.QueueRunP.
 
 (* Over EVERY event list the hub transition system accepts — any number of
    concurrent Receive/ServeAsk and Deliver calls, any interleaving with
@@ -46,8 +46,41 @@ Example C13_nonvacuous :
   hrun hub0 [HRecvCall 0; HDlvCall 0; HMeet 0 0; HDlvRetOk 0] = None.
 Proof. split; [vm_compute; discriminate|vm_compute; reflexivity]. Qed.
 
+(* ---- swarmutil.Queue: each accepted message is handed out exactly once ---- *)
+
+(* for every operation sequence on a fresh queue: the messages Deliver accepted
+   are, in order, exactly those that have left the queue (each once: handed to a
+   Receive callback, purged, or dropped by Close) followed by those still queued;
+   the queue never holds more than its capacity *)
+Theorem C13_queue_exactly_once : forall cap mtu ops,
+  let '(q, h) := qhrun (new_queue cap mtu) (mkH [] []) ops in
+  h_accepted h = map fst (h_left h) ++ q_items q /\ length (q_items q) <= cap.
+Proof. exact queue_exactly_once. Qed.
+
+(* Receive hands out the oldest queued message and removes exactly it *)
+Theorem C13_queue_receive_is_oldest : forall q m q', qstep q QReceive = (q', QGot m) -> q_items q = m :: q_items q'.
+Proof. exact receive_is_oldest. Qed.
+
+(* a Deliver that reports false left no trace; one that reports true stored the message as given *)
+Theorem C13_queue_refused_unseen : forall q m, snd (qstep q (QDeliver m)) = QRefused -> fst (qstep q (QDeliver m)) = q.
+Proof. exact refused_unseen. Qed.
+Theorem C13_queue_accepted_stored : forall q m, snd (qstep q (QDeliver m)) = QAccepted ->
+  q_items (fst (qstep q (QDeliver m))) = q_items q ++ [m] /\ length (q_payload m) <= q_mtu q.
+Proof. exact accepted_stored. Qed.
+
+(* the verdict the runner computes on a real queue's results never blames results the model produces *)
+Theorem C13_queue_verdict_sound : forall ops q,
+  length (q_items q) <= q_cap q -> (q_closed q = true -> q_items q = []) ->
+  p_qseq (q_cap q) (q_mtu q) (q_closed q) (q_items q) ops (map sx_of_qout (snd (qrun q ops))) = Run.RunFrag.ok.
+Proof. exact model_results_pass. Qed.
+
 Print Assumptions C13_exactly_one.
 Print Assumptions C13_success_after_callback.
 Print Assumptions C13_error_means_unseen.
 Print Assumptions C13_cancel_enabled.
 Print Assumptions C13_cancel_loses_nothing.
+Print Assumptions C13_queue_exactly_once.
+Print Assumptions C13_queue_receive_is_oldest.
+Print Assumptions C13_queue_refused_unseen.
+Print Assumptions C13_queue_accepted_stored.
+Print Assumptions C13_queue_verdict_sound.
